@@ -308,3 +308,8 @@ Proof.
   intros Q1. destruct e; try discriminate He;
     step_inv E; autorewrite with frame in *; bool_hyps; auto; congruence.
 Qed.
+
+Lemma bdisc_atomic_init :
+  forall cp tr s, forallb (fun e => match e with ECloseQBegin => false | _ => true end) tr = true ->
+    run (init cp) tr = Some s -> grun bdisc (init cp) tr = Some s.
+Proof. intros cp tr s. apply bdisc_atomic. discriminate. Qed.
